@@ -672,7 +672,14 @@ func (e *Env) callExpr(ex *ast.CallExpr) (SVal, error) {
 	case "old":
 		c := e.sub()
 		c.Old = true
-		return c.eval(ex.Args[0])
+		v, err := c.eval(ex.Args[0])
+		if err == nil && v.K == KSlice && v.Snap == "" {
+			// the contents of a slice (parameter) as they were on entry
+			if iv, ok := e.St.Init[v.Loc]; ok {
+				v.Snap = iv.T
+			}
+		}
+		return v, err
 	case "held":
 		return mkBool(boolLit(e.St.Held[argStr(0)])), nil
 	case "asserted":
